@@ -1061,6 +1061,20 @@ func (env *SpecEnv) callExpr(x *ast.CallExpr) SVal {
 				}
 				continue
 			}
+			// wr(N, off): the N bytes written by this call starting at offset off
+			if ce, ok := x.Args[i].(*ast.CallExpr); ok {
+				if id, ok := ce.Fun.(*ast.Ident); ok && id.Name == "wr" && len(ce.Args) == 2 {
+					n, okn := litInt(env.expr(ce.Args[0]).t())
+					if !okn {
+						specFail("wr(N, off): N must be a literal")
+					}
+					off := env.expr(ce.Args[1]).t()
+					for k := int64(0); k < n; k++ {
+						ts = append(ts, vc.sel(vc.get(env.cur, "#out"), add(add(vc.get(env.old, "#outlen"), off), itoa(k))))
+					}
+					continue
+				}
+			}
 			ts = append(ts, arg(i).t())
 		}
 		if len(ts) != len(sf.args) {
